@@ -27,6 +27,10 @@ def main() -> int:
             open(path, "w", encoding="utf-8").write(text.replace(entry["old"], entry["new"], 1))
             res = verify_contract(tree, contracts[entry["contract"]], by_target, MODELS, 10000, open_findings=[])
             failed = [o for o in res["obligations"] if o["status"] == "failed"]
+            if not failed and any(o["status"] == "undecided" for o in res["obligations"]):
+                # as the driver does: obligations left open by the solvers are followed by the counterexample search
+                small = verify_contract(tree, contracts[entry["contract"]], by_target, MODELS, 10000, mode="small", open_findings=[])
+                failed = [o for o in small["obligations"] if o["status"] == "failed" and o["kind"] != "unwind"]
             if res["out_of_subset"] or res.get("engine_error"):
                 verdict = "unsupported"
             else:
